@@ -49,6 +49,7 @@ type tcProfile struct {
 	Plans     bool // executor-change plans on L2 (several validators leave in one block)
 	WWithdraw int  // weight of user withdrawals (default 8)
 	WPropose  int  // weight of proposals (default 4); lower = larger trees
+	DepFault  int  // % of relay txs with a dependency fault armed in the L2's bank / account keeper
 }
 
 type depEvent struct {
@@ -77,6 +78,7 @@ type netMsg struct {
 	Desc  string
 	At    time.Time // delivery time (sim clock)
 	From  string    // actor name (for partitions)
+	Fault string    // dependency fault armed through the tx memo (L2 relays)
 }
 
 type memTx struct {
@@ -85,6 +87,7 @@ type memTx struct {
 	Bytes []byte
 	Kind  string
 	Desc  string
+	Fault string
 }
 
 type execActor struct {
@@ -210,6 +213,10 @@ func (tc *twoChain) mk(chain int, msgs []sdk.Msg, kind, desc string) memTx {
 func (tc *twoChain) send(chain int, from string, msgs []sdk.Msg, kind, desc string) {
 	r := tc.r
 	m := netMsg{Chain: chain, Msgs: msgs, Kind: kind, Desc: desc, From: from, At: tc.simNow, Call: tc.histInvoke(msgs)}
+	if chain == 2 && (kind == "relay" || kind == "relaybatch") && tc.p.DepFault > 0 && !tc.draining && r.Chance(tc.p.DepFault, 100) {
+		// the k-th bank / account keeper call of this relay fails or panics on the L2
+		m.Fault = fmt.Sprintf("fault:%s:%d:%s", []string{"bank", "bank", "bank", "acct"}[r.Intn(4)], r.Intn(6), []string{"err", "panic"}[r.Intn(2)])
+	}
 	if tc.p.Faults && !tc.draining {
 		switch r.Weighted([]int{12, 2, 2, 2}) {
 		case 1:
@@ -245,6 +252,13 @@ func (tc *twoChain) deliver(chain int) {
 			continue
 		}
 		t := tc.mk(chain, m.Msgs, m.Kind, m.Desc)
+		if m.Fault != "" {
+			bz, err := node.BuildTx(tc.L1.enc, m.Msgs, node.TxOpts{Memo: m.Fault})
+			if err != nil {
+				panic(err)
+			}
+			t.Bytes, t.Fault = bz, m.Fault
+		}
 		t.Call = m.Call
 		var code uint32
 		var log string
@@ -410,7 +424,7 @@ func (tc *twoChain) blockL2(txs []memTx, dt time.Duration, crash string) *core.V
 	}
 	var pts []l2Pending
 	for _, t := range txs {
-		pts = append(pts, l2Pending{Msgs: t.Msgs, Bytes: t.Bytes, Kind: t.Kind, Desc: t.Desc})
+		pts = append(pts, l2Pending{Msgs: t.Msgs, Bytes: t.Bytes, Kind: t.Kind, Desc: t.Desc, Fault: t.Fault})
 	}
 	if v := w.execBlock(bc, pts, crash); v != nil {
 		return v
@@ -422,6 +436,12 @@ func (tc *twoChain) blockL2(txs []memTx, dt time.Duration, crash string) *core.V
 		var resps []interface{}
 		for _, rm := range node.DecodeResponses(w.enc, w.lastRes.TxResults[i].Data) {
 			resps = append(resps, rm)
+		}
+		if t.Fault != "" && w.lastRes.TxResults[i].Code != 0 {
+			// a relay that failed with a dependency fault armed had no effect and says nothing about the order
+			// (the only relaxation under injected faults: such an operation may fail; what it returns when it
+			// succeeds is judged like any other)
+			continue
 		}
 		tc.histReturn(t.Call, t.Msgs, w.lastRes.TxResults[i].Code == 0, resps)
 	}
